@@ -113,6 +113,35 @@ func flatOf(f *verifapi.File) Sx {
 	return T("flat", Ints(f.VerifFlatten()).List...)
 }
 
+// files longer than this are observed in compact form: run-length encoded lines, aggregated callback log
+const compactAbove = 300
+
+// rleOf is the run-length encoding of the real flatten() output: (rle (value count) ...)
+func rleOf(lines []int) Sx {
+	var xs []Sx
+	for i := 0; i < len(lines); {
+		e := i
+		for e < len(lines) && lines[e] == lines[i] {
+			e++
+		}
+		xs = append(xs, L(I(lines[i]), I(e-i)))
+		i = e
+	}
+	return T("rle", xs...)
+}
+
+func sameInts(a, b []int) bool {
+	if len(a) != len(b) {
+		return false
+	}
+	for i := range a {
+		if a[i] != b[i] {
+			return false
+		}
+	}
+	return true
+}
+
 func panicClass(msg string) string {
 	switch {
 	case strings.Contains(msg, "nil file"):
@@ -127,8 +156,16 @@ func panicClass(msg string) string {
 
 func runFile(fc *fcase) []Sx {
 	var log []Sx
+	big := false
+	logsum := map[[4]int]int{}
 	upd := func(k int) verifapi.Updater {
-		return func(cur, prev, delta int) { log = append(log, L(I(k), I(cur), I(prev), I(delta))) }
+		return func(cur, prev, delta int) {
+			if big {
+				logsum[[4]int{k, cur, prev, delta}]++
+				return
+			}
+			log = append(log, L(I(k), I(cur), I(prev), I(delta)))
+		}
 	}
 	var files []*verifapi.File
 	if len(fc.copies) == 0 || fc.copies[0] == nil {
@@ -174,10 +211,15 @@ func runFile(fc *fcase) []Sx {
 	if p {
 		return []Sx{T("setup-panic", A(panicClass(msg)))}
 	}
+	big = files[0].Len() > compactAbove
 	pre := make([]Sx, len(files))
+	preFlat := make([][]int, len(files))
 	for j, f := range files {
 		if f == nil {
 			pre[j] = T("nil")
+		} else if big {
+			preFlat[j] = f.VerifFlatten()
+			pre[j] = T("copy", nodesOf(f), rleOf(preFlat[j]))
 		} else {
 			pre[j] = T("copy", nodesOf(f), flatOf(f))
 		}
@@ -190,9 +232,23 @@ func runFile(fc *fcase) []Sx {
 		res = T("panic", A(panicClass(msg)))
 	}
 	obs := []Sx{T("pre", pre...), T("res", res)}
+	if big {
+		obs = append([]Sx{T("big", I(1))}, obs...)
+	}
 	// the state afterwards (also after a panic: a refused merge must leave the file alone)
 	var post []Sx
 	msg, p = Catch(func() {
+		if big {
+			post = append(post, T("self", nodesOf(files[0]), rleOf(files[0].VerifFlatten()), T("len", I(files[0].Len())), T("count", I(files[0].Nodes()))))
+			same := true
+			for j, f := range files[1:] {
+				if f != nil && !sameInts(f.VerifFlatten(), preFlat[j+1]) {
+					same = false
+				}
+			}
+			post = append(post, T("others-same", B(same)))
+			return
+		}
 		post = append(post, T("self", nodesOf(files[0]), flatOf(files[0]), T("len", I(files[0].Len())), T("count", I(files[0].Nodes()))))
 		others := []Sx{}
 		for _, f := range files[1:] {
@@ -206,6 +262,26 @@ func runFile(fc *fcase) []Sx {
 	})
 	if p {
 		post = []Sx{T("observe-panic")}
+	}
+	if big {
+		// the callback log as a multiset: (k current previous delta count), sorted
+		keys := make([][4]int, 0, len(logsum))
+		for k := range logsum {
+			keys = append(keys, k)
+		}
+		sort.Slice(keys, func(i, j int) bool {
+			for x := 0; x < 4; x++ {
+				if keys[i][x] != keys[j][x] {
+					return keys[i][x] < keys[j][x]
+				}
+			}
+			return false
+		})
+		var xs []Sx
+		for _, k := range keys {
+			xs = append(xs, L(I(k[0]), I(k[1]), I(k[2]), I(k[3]), I(logsum[k])))
+		}
+		return append(obs, T("post", post...), T("logsum", xs...))
 	}
 	obs = append(obs, T("post", post...), T("log", log...))
 	return obs
@@ -467,6 +543,194 @@ func exhaustive(c *Config, length, ncopies int, days []int) {
 	}
 }
 
+// ---------------------------------------------------------------- scale family (file level)
+//
+// A few LARGE files (10^3 .. 10^5 lines, thorough 10^6) whose copies differ at chosen places only: the head, the
+// tail (last 1..7 lines), around every power of two, around the boundaries and in the remainder of an even split
+// into w parts (w = 2..64), in periodic stripes, tails marked in every copy.  Every copy is the base file
+// (one common value) with replacement Updates laid down left to right, so the case format is the ordinary one.
+
+type span struct{ pos, n int }
+
+// normalise sorts the spans, clips them to [0,n) and makes them disjoint.
+func normalise(n int, sp []span) []span {
+	sort.Slice(sp, func(i, j int) bool { return sp[i].pos < sp[j].pos })
+	var out []span
+	end := 0
+	for _, s := range sp {
+		if s.pos < end {
+			s.n -= end - s.pos
+			s.pos = end
+		}
+		if s.pos+s.n > n {
+			s.n = n - s.pos
+		}
+		if s.pos < 0 || s.n <= 0 {
+			continue
+		}
+		out = append(out, s)
+		end = s.pos + s.n
+	}
+	return out
+}
+
+func singles(from, to int) []span {
+	var sp []span
+	for i := from; i < to; i++ {
+		sp = append(sp, span{i, 1})
+	}
+	return sp
+}
+
+var splitWidths = []int{2, 3, 4, 5, 6, 7, 8, 10, 12, 16, 32, 64}
+
+func scaleSpans(c *Config, n int, shape string) []span {
+	var sp []span
+	switch shape {
+	case "head":
+		sp = singles(0, 1+c.Rng.Intn(7))
+	case "tail":
+		sp = singles(n-1-c.Rng.Intn(7), n)
+	case "tail-run":
+		r := 1 + c.Rng.Intn(7)
+		sp = []span{{n - r, r}}
+	case "pow2", "pow2-marked":
+		for p := 1; p <= n; p *= 2 {
+			sp = append(sp, span{p - 1, 1}, span{p, 1})
+		}
+	case "split", "split-marked":
+		// the boundaries of an even split into w parts and the remainder n - w*(n/w)
+		for _, w := range splitWidths {
+			ch := n / w
+			if ch == 0 {
+				continue
+			}
+			for i := 1; i <= w; i++ {
+				sp = append(sp, span{i*ch - 1, 1}, span{i * ch, 1})
+			}
+			sp = append(sp, singles(w*ch, n)...)
+		}
+	case "period":
+		ps := []int{255, 256, 257, 1023, 1024, 1025, 4095, 4096, 4097}
+		if n <= 5000 {
+			ps = []int{2, 3, 4, 5, 7, 8, 9, 15, 16, 17, 31, 32, 33, 63, 64, 65}
+		}
+		p := ps[c.Rng.Intn(len(ps))]
+		for i := p; i < n; i += 2 * p {
+			sp = append(sp, span{i, p})
+		}
+		sp = append(sp, span{n - 1, 1})
+	case "dense":
+		sp = singles(0, n)
+	default: // "all": everything that is cheap
+		sp = append(sp, scaleSpans(c, n, "head")...)
+		sp = append(sp, scaleSpans(c, n, "tail")...)
+		sp = append(sp, scaleSpans(c, n, "pow2")...)
+		sp = append(sp, scaleSpans(c, n, "split")...)
+	}
+	return normalise(n, sp)
+}
+
+// scaleFile builds one large case.  cell decides the value of copy j on a span (common = leave the line alone).
+func scaleFile(c *Config, n int, shape string, ncopies int) *fcase {
+	g := valgen{authors: c.Rng.Intn(4) > 0, c: c}
+	common := 3
+	if g.authors {
+		common = 1<<14 | 3
+	}
+	fc := &fcase{kind: fmt.Sprintf("scale-%s", shape), n: n, t0: common, mode: c.Rng.Intn(4), day: g.day()}
+	for fc.day&mark == mark || fc.day < 0 || fc.day >= 1<<32-1 {
+		fc.day = g.day()
+	}
+	cmv := make([]int, ncopies)
+	for j := range cmv {
+		cmv[j] = g.marked()
+	}
+	spans := scaleSpans(c, n, shape)
+	allMarkedTail := 0
+	switch shape {
+	case "tail-marked":
+		// the last r lines carry the mark in every copy, the lines before them differ
+		allMarkedTail = 1 + c.Rng.Intn(9)
+		spans = normalise(n, append(singles(n-allMarkedTail-3, n-allMarkedTail), span{n - allMarkedTail, allMarkedTail}))
+	case "tail-append":
+		// one branch appended r lines, the merge commit is replayed in the receiver: marks there
+		spans = normalise(n, []span{{n - 1 - c.Rng.Intn(7), 8}})
+	case "tail-older":
+		spans = normalise(n, []span{{n - 1 - c.Rng.Intn(3), 4}})
+	}
+	ops := make([][]uop, ncopies)
+	for _, s := range spans {
+		giver := 1 + c.Rng.Intn(ncopies-1)
+		everywhere := strings.HasSuffix(shape, "-marked") && c.Rng.Intn(10) < 7
+		for j := 0; j < ncopies; j++ {
+			v := common
+			switch {
+			case everywhere && allMarkedTail == 0:
+				v = cmv[j] // the mark in every copy: the line is stamped with the merge tick and reported
+			case allMarkedTail > 0 && s.pos >= n-allMarkedTail:
+				v = cmv[j]
+			case shape == "tail-append":
+				v = cmv[j]
+				if j == giver || j > 0 && c.Rng.Intn(4) == 0 {
+					v = g.unmarked()
+				}
+			case shape == "tail-older":
+				v = g.unmarked()
+			default:
+				switch r := c.Rng.Intn(20); {
+				case r < 7:
+				case r < 14:
+					v = g.unmarked()
+				default:
+					v = cmv[j]
+				}
+			}
+			if v != common {
+				ops[j] = append(ops[j], uop{v, s.pos, s.n, s.n})
+			}
+		}
+	}
+	for j := 0; j < ncopies; j++ {
+		o := ops[j]
+		fc.copies = append(fc.copies, &o)
+	}
+	return fc
+}
+
+func scaleFamily(c *Config) {
+	sizes := []int{255, 256, 257, 1000, 4097, 32767, 32768, 32769, 32775, 40009, 65535, 65536, 65537, 100003}
+	shapes := []string{"head", "tail", "tail-run", "tail-append", "tail-older", "tail-marked", "pow2", "pow2-marked", "split", "split-marked", "period", "all"}
+	if c.Thorough() {
+		sizes = append(sizes, 1023, 1024, 1025, 8191, 8193, 16383, 16384, 16385, 32770, 32771, 32772, 32773, 32774, 32783,
+			50001, 131071, 131073, 262147)
+	}
+	for _, n := range sizes {
+		for _, sh := range shapes {
+			reps := 1
+			if c.Thorough() {
+				reps = 3
+			}
+			for r := 0; r < reps; r++ {
+				emitFile(c, scaleFile(c, n, sh, 2+c.Rng.Intn(3)))
+			}
+		}
+	}
+	// every line differs: many tree nodes
+	dense := []int{301, 1000}
+	if c.Thorough() {
+		dense = append(dense, 4099, 32768, 32769)
+	}
+	for _, n := range dense {
+		emitFile(c, scaleFile(c, n, "dense", 2+c.Rng.Intn(2)))
+	}
+	if c.Thorough() {
+		for _, sh := range []string{"tail", "tail-append", "tail-marked", "all"} {
+			emitFile(c, scaleFile(c, 1000007, sh, 2+c.Rng.Intn(2)))
+		}
+	}
+}
+
 // ---------------------------------------------------------------- analysis level
 
 type aop struct {
@@ -703,6 +967,11 @@ func emitAna(c *Config, ac *acase) {
 }
 
 func randAna(c *Config, kind string) *acase {
+	return randAnaN(c, kind, 1+c.Rng.Intn(4), 2+c.Rng.Intn(3))
+}
+
+// randAnaN: npaths files, nb branches (the scale family asks for many of either)
+func randAnaN(c *Config, kind string, npaths, nb int) *acase {
 	ac := &acase{kind: kind, track: c.Rng.Intn(2) == 0}
 	if c.Rng.Intn(2) == 0 {
 		ac.people = 3
@@ -716,7 +985,6 @@ func randAna(c *Config, kind string) *acase {
 		}
 		return c.Rng.Intn(ac.people)
 	}
-	npaths := 1 + c.Rng.Intn(4)
 	tickNow := 1 + c.Rng.Intn(3)
 	baseLen := make([]int, npaths) // -1 = absent
 	ac.setup = append(ac.setup, aop{"tick", []int{tickNow}})
@@ -731,7 +999,7 @@ func randAna(c *Config, kind string) *acase {
 		o := randOp(c, n, 0)
 		*ops = append(*ops, aop{"u", []int{p, author(), tick, o.p, o.i, o.d}})
 	}
-	for k := c.Rng.Intn(4); k > 0; k-- {
+	for k := c.Rng.Intn(4) + npaths/4; k > 0; k-- {
 		p := c.Rng.Intn(npaths)
 		if baseLen[p] >= 0 {
 			if c.Rng.Intn(2) == 0 {
@@ -741,13 +1009,12 @@ func randAna(c *Config, kind string) *acase {
 			randU(&ac.setup, p, &baseLen[p], tickNow)
 		}
 	}
-	nb := 2 + c.Rng.Intn(3)
 	lens := make([][]int, nb)
 	ac.branches = make([][]aop, nb)
 	for j := 0; j < nb; j++ {
 		lens[j] = append([]int{}, baseLen...)
 		t := tickNow
-		for k := c.Rng.Intn(4); k > 0; k-- {
+		for k := c.Rng.Intn(4) + npaths/4; k > 0; k-- {
 			p := c.Rng.Intn(npaths)
 			if c.Rng.Intn(2) == 0 {
 				t += 1 + c.Rng.Intn(2) // equal ticks across branches are frequent
@@ -768,8 +1035,12 @@ func randAna(c *Config, kind string) *acase {
 	// the merge commit, replayed on every branch
 	mergeAuthor := author()
 	mergeTick := tickNow + 10 + c.Rng.Intn(5)
-	if c.Rng.Intn(40) == 0 {
+	switch c.Rng.Intn(80) {
+	case 0, 1:
 		mergeTick = mark
+	case 2:
+		// around the 14 tick bits: packPersonWithTick masks the tick when people are tracked
+		mergeTick = []int{16382, 16384, 16385, 32767, 32768, 1 << 20}[c.Rng.Intn(6)]
 	}
 	for j := 0; j < nb; j++ {
 		a := mergeAuthor
@@ -871,6 +1142,71 @@ func randAna(c *Config, kind string) *acase {
 	return ac
 }
 
+// anaBig: one tracked file of n lines; a branch appends / rewrites its last r lines in a regular commit, the
+// merge commit is replayed in the other branches (marks at the very end of a long file), any branch may be the
+// receiver of Merge.
+func anaBig(c *Config, n int) *acase {
+	ac := &acase{kind: "ana-big", nt: true, track: c.Rng.Intn(2) == 0, probeB: -1}
+	if c.Rng.Intn(3) > 0 {
+		ac.people = 3
+	}
+	author := func() int {
+		if ac.people == 0 {
+			return authorMissing
+		}
+		return c.Rng.Intn(ac.people)
+	}
+	ac.setup = []aop{{"tick", []int{1}}, {"new", []int{0, author(), 1, n}}}
+	nb := 2 + c.Rng.Intn(2)
+	giver := c.Rng.Intn(nb)
+	r := 1 + c.Rng.Intn(7)
+	del := 0
+	if c.Rng.Intn(2) == 0 {
+		del = r
+	}
+	ma := author()
+	for j := 0; j < nb; j++ {
+		var ops []aop
+		if j == giver {
+			// the giver's tree already equals the merge commit: nothing is flagged there
+			ops = append(ops, aop{"tick", []int{3}}, aop{"u", []int{0, author(), 3, n - del, r, del}}, aop{"begin", []int{ma}})
+		} else {
+			if c.Rng.Intn(2) == 0 {
+				ops = append(ops, aop{"tick", []int{2}}, aop{"u", []int{0, author(), 2, c.Rng.Intn(5), 1, 1}})
+			}
+			ops = append(ops, aop{"begin", []int{ma}}, aop{"mu", []int{0, n - del, r, del}})
+		}
+		ops = append(ops, aop{"end", []int{9}})
+		ac.branches = append(ac.branches, ops)
+	}
+	return ac
+}
+
+func scaleAna(c *Config) {
+	// many files
+	for _, np := range []int{64, 257} {
+		emitAna(c, randAnaN(c, "ana-scale", np, 2+c.Rng.Intn(2)))
+	}
+	// many branches
+	for _, nb := range []int{8, 9, 17, 33} {
+		emitAna(c, randAnaN(c, "ana-scale", 1+c.Rng.Intn(3), nb))
+	}
+	sizes := []int{32771}
+	if c.Thorough() {
+		sizes = []int{32767, 32768, 32769, 32775, 40009, 65537}
+		for _, np := range []int{1000} {
+			emitAna(c, randAnaN(c, "ana-scale", np, 2))
+		}
+		for _, nb := range []int{64, 65, 129} {
+			emitAna(c, randAnaN(c, "ana-scale", 2, nb))
+		}
+	}
+	for _, n := range sizes {
+		emitAna(c, anaBig(c, n))
+		emitAna(c, anaBig(c, n))
+	}
+}
+
 // exhaustive small scope at the analysis level: one path, nb branches, every combination of
 // (file absent | present) x (not flagged | flagged true | flagged true with a marked line | flagged false)
 func exhaustiveAna(c *Config, nb int) {
@@ -927,6 +1263,9 @@ func main() {
 	defer c.Close()
 	if c.Replay != "" {
 		for _, s := range c.ReplayCases() {
+			if _, isPipe := s.Field("commits"); isPipe {
+				continue // a case of the pipeline-level stream (harness c07p)
+			}
 			if _, isAna := s.Field("people"); isAna {
 				emitAna(c, parseAcase(s))
 			} else {
@@ -946,6 +1285,8 @@ func main() {
 		exhaustive(c, 1, 5, days)
 		exhaustive(c, 3, 2, days)
 	}
+	scaleFamily(c)
+	scaleAna(c)
 	exhaustiveAna(c, 2)
 	exhaustiveAna(c, 3)
 	if c.Thorough() {
